@@ -1521,6 +1521,7 @@ fn states(view: &str, n: &str, old: &str, old2: &str) -> Vec<(String, usize)> {
         "Aaa: 1\n# c\nZzz: 2".to_string(),                                    // absent, no final newline
         "Aaa: 1\nZzz: 2\n# vim: set ft=debcontrol :".to_string(),             // absent; the last line is an unterminated comment
         format!("Aaa: 1\n{}:{}\nZzz: 2", n, old.replace('\n', "\n\t")),       // tight layout, no final newline
+        format!("Aaa: 1\n# about the last field\n# (two lines)\n{}", fld),      // the LAST field, comment lines directly above it (after seeded change C15-r8m1)
     ];
     let single = view == "dep3.PatchHeader" || view == "changes.Changes";
     let mut out: Vec<(String, usize)> = vec![];
@@ -1537,6 +1538,7 @@ fn states(view: &str, n: &str, old: &str, old2: &str) -> Vec<(String, usize)> {
         }
         if !single {
             out.push((format!("Xx: 0\n\nAaa: 1\n{}Zzz: 2\n\n# tail\nYy: 9\n", fld), 1));
+            out.push((format!("Aaa: 1\n# c\n{}\n# next\nYy: 9\n", fld), 0));
         }
     }
     out
